@@ -4,14 +4,19 @@ import (
 	stdjson "encoding/json"
 	"errors"
 	"fmt"
+	"reflect"
 	"sort"
+	"strings"
+	"sync/atomic"
 	"time"
 
 	jsonv2 "github.com/go-json-experiment/json"
 	"github.com/go-json-experiment/json/jsontext"
 	jsonv1 "github.com/go-json-experiment/json/v1"
 
+	"verif/internal/enum"
 	"verif/internal/evid"
+	"verif/internal/typeuniv"
 )
 
 // ---- witness operations: for every boolean option at least one operation whose result the option changes ----
@@ -282,4 +287,140 @@ func formatWrappers(r *evid.Run) {
 	r.Evaluations.Add(n)
 	r.Nontrivial.Add(n)
 	r.Bound("format wrappers: Value.Compact/Indent/Canonicalize(caller options) == Value.Format(documented initial options ++ caller options) == AppendFormat, for all caller option sequences of length <=2 over %d atoms x %d documents", len(callerAtoms), len(docs))
+}
+
+// ---- the last-wins laws over the generated type universe, on chains of two Unmarshal calls ----
+//
+// The hand-written witnesses cover each option once; the sites where an option is consulted are many (one per
+// kind of Go value). Here every type of the universe is decoded twice in a row into the same target (every ordered
+// pair of texts taken from its value domain plus null), so that merge/null/zeroing behaviour is observable, and
+// the result under {} is compared with the results under each legacy option set explicitly to false, under
+// true-then-false, under DefaultOptionsV2 and under DefaultOptionsV1 followed by DefaultOptionsV2.
+
+func universeLaws(r *evid.Run) {
+	cfg := typeuniv.Cfg{Depth: 1, NoInvalid: true}
+	ts := typeuniv.Universe(cfg)
+	v1, v2 := jsonv1.DefaultOptionsV1(), jsonv2.DefaultOptionsV2()
+	type variant struct {
+		name string
+		opts []jsonv2.Options
+		like int // index of the variant it must equal
+	}
+	variants := []variant{{"no options", nil, 0}, {"DefaultOptionsV1()", []jsonv2.Options{v1}, 1}}
+	variants = append(variants, variant{"DefaultOptionsV2()", []jsonv2.Options{v2}, 0}, variant{"DefaultOptionsV1(), DefaultOptionsV2()", []jsonv2.Options{v1, v2}, 0},
+		variant{"DefaultOptionsV2(), DefaultOptionsV1()", []jsonv2.Options{v2, v1}, 1})
+	for _, o := range boolOpts {
+		t, f := o.ctor(true), o.ctor(false)
+		variants = append(variants, variant{o.name + "(false)", []jsonv2.Options{f}, 0}, variant{o.name + "(true), " + o.name + "(false)", []jsonv2.Options{t, f}, 0})
+		if o.v1 {
+			variants = append(variants, variant{"DefaultOptionsV1(), " + o.name + "(true)", []jsonv2.Options{v1, t}, 1}, variant{o.name + "(true), DefaultOptionsV2()", []jsonv2.Options{t, v2}, 0})
+		}
+	}
+	var chains atomic.Int64
+	enum.Parallel(r, len(ts), func(w *enum.Worker) func(int) {
+		var cur Case
+		w.Describe = func() any { return cur }
+		var n int64
+		w.Done = func() { r.Evaluations.Add(n); r.Nontrivial.Add(n) }
+		return func(u int) {
+			t := ts[u]
+			texts := []string{"null"}
+			for i, rv := range typeuniv.Domain(t, true) {
+				if i >= 4 {
+					break
+				}
+				if b, err := jsonv2.Marshal(rv.Interface(), jsonv2.Deterministic(true)); err == nil {
+					texts = append(texts, string(b))
+				}
+			}
+			run := func(a, b string, opts []jsonv2.Options) string {
+				defer func() { recover() }()
+				p := reflect.New(t)
+				e1 := jsonv2.Unmarshal([]byte(a), p.Interface(), opts...)
+				e2 := jsonv2.Unmarshal([]byte(b), p.Interface(), opts...)
+				out, e3 := jsonv2.Marshal(p.Elem().Interface(), jsonv2.Deterministic(true), jsontext.AllowInvalidUTF8(true))
+				return fmt.Sprintf("%s|%v|%v|%v", out, e1 != nil, e2 != nil, e3 != nil)
+			}
+			for _, a := range texts {
+				for _, b := range texts {
+					res := make([]string, len(variants))
+					for vi, va := range variants {
+						n++
+						res[vi] = run(a, b, va.opts)
+					}
+					chains.Add(1)
+					for vi, va := range variants {
+						if res[vi] != res[va.like] {
+							cur = Case{Part: "universe-laws", Note: fmt.Sprintf("%s: %s then %s", typeuniv.Describe(t), a, b), Atoms: []string{va.name}}
+							r.Violation(fmt.Sprintf("c19|universe-laws|%s|%s|%s|%s", typeuniv.Describe(t), a, b, va.name), fmt.Sprintf("%s: Unmarshal(%s) then Unmarshal(%s) into one target under {%s} gives %s, under {%s} gives %s", typeuniv.Describe(t), a, b, va.name, res[vi], variants[va.like].name, res[va.like]), cur, nil)
+							break
+						}
+					}
+				}
+			}
+			w.Beat()
+		}
+	})
+	r.Bound("universe laws: %d generated types x every ordered pair of <=5 texts (null and the encodings of 4 domain values) decoded one after the other into one target x %d option spellings (each boolean option false / true-then-false, legacy options on top of DefaultOptionsV1, DefaultOptionsV2 after them): %d chains", len(ts), len(variants), chains.Load())
+}
+
+// ---- the caller's option list is only read ----
+//
+// "Options ... apply only where scoped": a call receives its options as a variadic slice; when the caller passes a
+// prefix of a longer list (list[:k]...) the call must leave list[k:] alone, with the process-wide format-tag
+// switch off and on (the switch makes every entry point add one option of its own to what it was given).
+
+func callerListUntouched(r *evid.Run) {
+	mk := func() []jsonv2.Options {
+		return []jsonv2.Options{jsonv2.Deterministic(true), jsonv2.StringifyNumbers(true), jsontext.AllowDuplicateNames(true), jsonv2.FormatNilSliceAsNull(true), jsontext.EscapeForHTML(true), jsonv2.OmitZeroStructFields(true)}
+	}
+	snap := func(l []jsonv2.Options) string {
+		s := ""
+		for _, o := range l {
+			s += fmt.Sprintf("%T:%v;", o, o)
+		}
+		return s
+	}
+	val := map[string]any{"b": 2, "a": []int(nil)}
+	calls := []struct {
+		name string
+		run  func(opts ...jsonv2.Options)
+	}{
+		{"Marshal", func(opts ...jsonv2.Options) { jsonv2.Marshal(val, opts...) }},
+		{"MarshalWrite", func(opts ...jsonv2.Options) { jsonv2.MarshalWrite(new(strings.Builder), val, opts...) }},
+		{"MarshalEncode", func(opts ...jsonv2.Options) {
+			jsonv2.MarshalEncode(jsontext.NewEncoder(new(strings.Builder)), val, opts...)
+		}},
+		{"Unmarshal", func(opts ...jsonv2.Options) { var v any; jsonv2.Unmarshal([]byte(`{"a":1}`), &v, opts...) }},
+		{"UnmarshalRead", func(opts ...jsonv2.Options) {
+			var v any
+			jsonv2.UnmarshalRead(strings.NewReader(`{"a":1}`), &v, opts...)
+		}},
+		{"UnmarshalDecode", func(opts ...jsonv2.Options) {
+			var v any
+			jsonv2.UnmarshalDecode(jsontext.NewDecoder(strings.NewReader(`{"a":1}`)), &v, opts...)
+		}},
+	}
+	var n int64
+	for _, global := range []bool{false, true} {
+		jsonv2.ExperimentalGlobalSupportFormatTag(global)
+		for _, c := range calls {
+			for k := 0; k <= 6; k++ {
+				n++
+				list := mk()
+				before := snap(list)
+				func() {
+					defer func() { recover() }()
+					c.run(list[:k]...)
+				}()
+				if after := snap(list); after != before {
+					r.Violation(fmt.Sprintf("c19|caller-list|%s|%d|%v", c.name, k, global), fmt.Sprintf("%s(list[:%d]...) with the global format-tag switch %v changed the caller's option list: %s -> %s", c.name, k, global, before, after), Case{Part: "caller-list", Note: c.name}, nil)
+				}
+			}
+		}
+	}
+	jsonv2.ExperimentalGlobalSupportFormatTag(false)
+	r.Evaluations.Add(n)
+	r.Nontrivial.Add(n)
+	r.Bound("caller's option list: 6 entry points x every prefix length of a 6-option list x the process-wide format-tag switch off/on: the elements behind the prefix are unchanged")
 }
